@@ -591,6 +591,12 @@ fn fixed_commitments_match(
     coms.len() == real.len() && coms.iter().zip(real.iter()).all(|(a, b)| a == b)
 }
 
+thread_local! {
+    /// hash of the verifying key of every circuit (written to the evidence: lets two runs on
+    /// two trees be compared)
+    pub static VK_HASHES: RefCell<BTreeMap<String, String>> = const { RefCell::new(BTreeMap::new()) };
+}
+
 pub struct FamilyOut {
     pub k: u32,
     pub violated: bool,
@@ -629,7 +635,7 @@ pub fn check_family<C: Circuit<F>>(
     knowns: &[Known<C>],
     small_limit: usize,
 ) -> Option<FamilyOut> {
-    let kind = name.split('(').next().unwrap_or(name).to_string();
+    let kind = if name.starts_with("zkir:") { "zkir".to_string() } else { name.split('(').next().unwrap_or(name).to_string() };
     // 1. keygen view, with and without the spy
     let s0 = match synth(unknown, true, None) {
         Ok(s) => s,
@@ -864,7 +870,11 @@ pub fn check_family<C: Circuit<F>>(
                                 json!({"circuit": name, "k": k}),
                             );
                         }
-                        vk0 = Some(vk.to_bytes(SerdeFormat::RawBytes))
+                        let bytes = vk.to_bytes(SerdeFormat::RawBytes);
+                        VK_HASHES.with(|h| {
+                            h.borrow_mut().insert(name.to_string(), blake2b_simd::blake2b(&bytes).to_hex()[..16].to_string())
+                        });
+                        vk0 = Some(bytes)
                     }
                     other => {
                         ctx.oracle_fail(&format!("keygen:{name}"), "keygen_vk fails at the k of the cost model", json!({"circuit": name, "k": k, "error": format!("{:?}", other.map(|r| r.map(|_| ())))}));
@@ -1069,4 +1079,36 @@ pub fn run(ctx: &mut Ctx) {
             prove_flow(ctx, &mut srs, &rel, &name, &cls, nc, mk);
         }
     }
+    // ZKIR programs through the real compiler
+    let _ = ();
+    for p in crate::zkir::programs() {
+        let name = format!("zkir:{}", p.text.replace(' ', "_"));
+        if let Some(f) = &only {
+            if !name.starts_with(f.as_str()) {
+                continue;
+            }
+        }
+        let rel = match crate::zkir::relation(&p) {
+            Ok(r) => r,
+            Err(e) => {
+                ctx.oracle_fail(&format!("zkir-compile:{name}"), "ZKIR program of the C09 list is rejected", json!({"program": p.text, "error": e}));
+                continue;
+            }
+        };
+        ctx.count("op:zkir");
+        let unknown = MidnightCircuit::new(&rel, Value::unknown(), Value::unknown(), Some(8));
+        let knowns: Vec<Known<MidnightCircuit<midnight_zkir::ZkirRelation>>> = p
+            .witnesses
+            .iter()
+            .map(|(txt, w)| Known {
+                class: txt.clone(),
+                sat: true,
+                witness: txt.clone(),
+                circuit: MidnightCircuit::new(&rel, Value::known(vec![]), Value::known(w.clone()), Some(8)),
+            })
+            .collect();
+        let _ = check_family(ctx, &mut srs, &name, &unknown, &knowns, small_limit);
+    }
+    let hashes = VK_HASHES.with(|h| h.borrow().clone());
+    ctx.set_extra("vk_hashes", json!(hashes));
 }
